@@ -7,7 +7,7 @@ use lsp_types::notification::{
 };
 use lsp_types::{
     Diagnostic, DidChangeTextDocumentParams, DidCloseTextDocumentParams, DidOpenTextDocumentParams,
-    Position, PublishDiagnosticsParams, Range, Url,
+    PublishDiagnosticsParams, Url,
 };
 use mos_core::errors::Diagnostics;
 use std::collections::{BTreeSet, HashMap};
@@ -113,10 +113,7 @@ fn to_diagnostics(error: &Diagnostics) -> Vec<(String, Diagnostic)> {
                         .look_up_span(label.file_id)
                 })
                 .map(|location| {
-                    let start =
-                        Position::new(location.begin.line as u32, location.begin.column as u32);
-                    let end = Position::new(location.end.line as u32, location.end.column as u32);
-                    let range = Range::new(start, end);
+                    let range = crate::lsp::to_range(location.clone());
                     let mut d = Diagnostic::new_simple(range, diag.message.clone());
                     d.source = Some("mos".into());
                     (location.file.name().to_string(), d)
